@@ -352,6 +352,11 @@ func runC27() {
 						if d.Bytes[off] >= 'a' && d.Bytes[off] <= 'f' || (bytes.ContainsAny(d.Bytes[s.GapLo:s.GapHi], "abcdef") && !bytes.ContainsAny(d.Bytes[s.GapLo:s.GapHi], "ABCDEF")) {
 							nd = strings.ToLower(string(nd))[0]
 						}
+						if ed.Region == "pad" && (nd == '0' || d.Bytes[off] != '0') {
+							// the pad family is "a non-zero digit replaces a padding zero"
+							skipped["hexval:pad-not-zero-to-nonzero"]++
+							continue
+						}
 						add(d, s, rec27{Kind: "hexval", Off: off, Region: ed.Region, Delta: ed.Delta}, func() []byte {
 							b := append([]byte(nil), d.Bytes...)
 							b[off] = nd
